@@ -319,10 +319,9 @@ def stage(o, tier, seed):
 
 
 def _conformance(o, thorough, seed):
-    gen, _ = vlib.gen_schedules(o.pid, FAMILY, "FetcherGen", "FetcherGen.cfg", num=2500 if thorough else 200, depth=40, seed=seed)
-    rr = vlib.rng(seed, "grow_fetcher/gen")
-    rr.shuffle(gen)
-    gen = gen[:5000 if thorough else 300]
+    bg = ThreadPoolExecutor(max_workers=1)       # TLC simulation runs in the background while the probe is executed
+    genf = bg.submit(vlib.gen_schedules, o.pid, FAMILY, "FetcherGen", "FetcherGen.cfg", num=2500 if thorough else 200, depth=40,
+                     seed=seed)
     rnd = random_schedules(seed, 6000 if thorough else 500, thorough)
     kw = dict(chunk=200)
     # known finding (an early fetch that straddles a chain reorg is cached): one directed probe through the regular
@@ -330,22 +329,26 @@ def _conformance(o, thorough, seed):
     # the probe showed it
     vlib.conformance(o, FAMILY, "FetcherTrace", "FetcherTrace.cfg", PKG, straddle_probe(), tag="ftc_probe", dev_cfgs=DEV_CFGS, **kw)
     as_coded = any(fid == FINDING for fid, _ in o.known)
-    allsch = directed_schedules() + gen + rnd
-    trig = [s for s in allsch if straddles(s)]
-    rest = [s for s in allsch if not straddles(s)]
-    vlib.conformance(o, FAMILY, "FetcherTrace", "FetcherTrace.cfg", PKG, rest, tag="ftc_main", **kw)
-    vlib.conformance(o, FAMILY, "FetcherTrace", "FetcherTrace_dev_straddle.cfg" if as_coded else "FetcherTrace.cfg", PKG, trig,
-                     tag="ftc_straddle", **kw)
+    gen, _ = genf.result()
+    bg.shutdown()
+    rr = vlib.rng(seed, "grow_fetcher/gen")
+    rr.shuffle(gen)
+    gen = gen[:5000 if thorough else 300]
+    cfgs = {False: ("FetcherTrace.cfg", open(os.path.join(vlib.SPECS, FAMILY, "FetcherTrace.cfg")).read()),
+            True: ("FetcherTrace_dev_straddle.cfg", open(os.path.join(vlib.SPECS, FAMILY, "FetcherTrace_dev_straddle.cfg")).read())}
+    vlib.conformance(o, FAMILY, "FetcherTrace", lambda t: cfgs[as_coded and straddles(t)], PKG, directed_schedules() + gen + rnd,
+                     tag="ftc_main", **kw)
     # binding negative controls on recorded traces
     tr = vlib.split_traces(vlib.read_ndjson(vlib.workdir(o.pid) + "/trace_ftc_main.ndjson"))
     muts = mutators()
     before = len(o.selftests)
+    tr = [t for t in tr if not straddles(t)]
     vlib.binding_selftest(o, FAMILY, "FetcherTrace", "FetcherTrace.cfg", tr, muts)
     if len(o.selftests) - before < len(muts) and not o.violations:
         raise vlib.Infra("Fetcher binding self-test: some negative control found no applicable trace")
     # vacuity
     seen = {"deliveries": 0, "cachehits": 0, "errors": 0, "reqs": set(), "skipped": 0}
-    for tag in ("ftc_main", "ftc_straddle"):
+    for tag in ("ftc_main",):
         p = vlib.workdir(o.pid) + "/trace_%s.ndjson" % tag
         if not os.path.exists(p):
             continue
